@@ -6,6 +6,9 @@ import (
 	"fmt"
 	"math/rand/v2"
 
+	"github.com/golang/snappy"
+
+	"github.com/oasisprotocol/oasis-core/go/common/cbor"
 	"github.com/oasisprotocol/oasis-core/go/common/crypto/hash"
 	"github.com/oasisprotocol/oasis-core/go/storage/mkvs/checkpoint"
 	"github.com/oasisprotocol/oasis-core/go/storage/mkvs/db/api"
@@ -15,7 +18,7 @@ import (
 // corruption kinds. The first group corrupts the chunk bytes under the honest metadata, the
 // "meta-" group hands the restorer a metadata whose digest list was tampered with.
 var dataCorruptions = []string{"bitflip", "truncate", "append", "swapped", "other-checkpoint-same-root", "other-checkpoint-other-root"}
-var metaCorruptions = []string{"meta-wrong-digest", "meta-digest-of-foreign-chunk"}
+var metaCorruptions = []string{"meta-wrong-digest", "meta-digest-of-foreign-chunk", "meta-digest-of-fabricated-chunk"}
 
 // foreign holds chunks of other checkpoints used as corruptions.
 type foreign struct {
@@ -108,6 +111,37 @@ func corruptChunk(rng *rand.Rand, kind string, i int, meta *checkpoint.Metadata,
 		mm := cloneMeta(meta)
 		mm.Chunks[i] = digestOf(fg.otherRoot[j])
 		return mm, fg.otherRoot[j], fmt.Sprintf("metadata digest %d replaced by the digest of chunk %d of a checkpoint of a different root, which is submitted", i, j), true
+	case "meta-digest-of-fabricated-chunk":
+		// The digest matches the submitted bytes, which are a well-formed chunk stream that proves
+		// nothing about the root: no entry at all, one nil entry (the proof of an empty tree), one
+		// empty byte string, or a lone hash entry of the trusted root / of zeroes.
+		mm := cloneMeta(meta)
+		var entries [][]byte
+		var what string
+		switch rng.IntN(6) {
+		case 0:
+			what = "no entries"
+		case 1:
+			entries, what = [][]byte{nil}, "one nil entry"
+		case 2:
+			entries, what = [][]byte{nil, nil}, "two nil entries"
+		case 3:
+			entries, what = [][]byte{{}}, "one empty byte string"
+		case 4:
+			entries, what = [][]byte{append([]byte{0x02}, meta.Root.Hash[:]...)}, "one hash entry naming the root itself"
+		default:
+			entries, what = [][]byte{append([]byte{0x02}, make([]byte, hash.Size)...)}, "one hash entry of zeroes"
+		}
+		var buf bytes.Buffer
+		sw := snappy.NewBufferedWriter(&buf)
+		enc := cbor.NewEncoder(sw)
+		for _, e := range entries {
+			_ = enc.Encode(e)
+		}
+		_ = sw.Close()
+		data = buf.Bytes()
+		mm.Chunks[i] = digestOf(data)
+		return mm, data, "metadata digest " + fmt.Sprint(i) + " replaced by the digest of a fabricated chunk (" + what + "), which is submitted", true
 	}
 	panic("unknown corruption " + kind)
 }
